@@ -354,6 +354,9 @@ class PathState:
             raise PathAbort()
         self.pc.append(cond)
         self.solver.add(cond)
+        m = getattr(self, "cur_model", None)
+        if m is not None and not z3.is_true(m.eval(cond, model_completion=True)):
+            self.cur_model = None
 
     def check(self, extra=None, timeout_ms=None):
         """sat/unsat/unknown of pc (and extra)."""
@@ -430,10 +433,37 @@ class PathState:
             return d
         if i >= self.ex.max_decisions:
             raise Unsupported(f"more than {self.ex.max_decisions} decisions on one path (unbounded loop without invariant?)")
-        rt = self.check(cond)
-        rf = self.check(z3.Not(cond))
-        t_ok = rt != z3.unsat
-        f_ok = rf != z3.unsat
+        # a model of the current path condition (if we hold one) already settles one side
+        m = getattr(self, "cur_model", None)
+        known = None
+        if m is not None:
+            v = m.eval(cond, model_completion=True)
+            if z3.is_true(v):
+                known = True
+            elif z3.is_false(v):
+                known = False
+        m_true = m_false = None
+        if known is True:
+            t_ok, m_true = True, m
+            rf = self.check(z3.Not(cond))
+            f_ok = rf != z3.unsat
+            if rf == z3.sat:
+                m_false = self.last_model
+        elif known is False:
+            f_ok, m_false = True, m
+            rt = self.check(cond)
+            t_ok = rt != z3.unsat
+            if rt == z3.sat:
+                m_true = self.last_model
+        else:
+            rt = self.check(cond)
+            if rt == z3.sat:
+                m_true = self.last_model
+            rf = self.check(z3.Not(cond))
+            if rf == z3.sat:
+                m_false = self.last_model
+            t_ok = rt != z3.unsat
+            f_ok = rf != z3.unsat
         if not t_ok and not f_ok:
             raise PathAbort()
         if t_ok and f_ok:
@@ -448,6 +478,7 @@ class PathState:
         c = cond if d else z3.Not(cond)
         self.pc.append(c)
         self.solver.add(c)
+        self.cur_model = m_true if d else m_false
         return d
 
     def choose(self, n, label="choice"):
